@@ -1,5 +1,4 @@
 OPEN "a.txt" FOR OUTPUT AS #1
-PRINT #1, "ab"
-OPEN "pre.txt" FOR RANDOM AS #2 LEN = 4
-FIELD #2, 4 AS F2$
-PRINT "end"
+PRINT #1, "p" + CHR$(200) + "q"
+OPEN "a.txt" FOR RANDOM AS #1 LEN = 4
+FIELD #1, 4 AS F1$
